@@ -205,6 +205,87 @@ def work_special(task):
     return acc.result()
 
 
+FORMS = ("float64", "int64", "float32", "bigendian", "fortran", "strided", "readonly", "noncontig_cols")
+
+
+def in_form(a, form):
+    """the same values handed over in another array form (values are multiples of 1/4: exact in every dtype used)"""
+    a = np.round(np.asarray(a) * 4) / 4
+    if form == "int64":
+        return np.round(a * 4).astype(np.int64), 4.0
+    if form == "float32":
+        return a.astype(np.float32), 1.0
+    if form == "bigendian":
+        return a.astype(np.dtype(np.float64).newbyteorder()), 1.0
+    if form == "fortran":
+        return np.asfortranarray(a), 1.0
+    if form == "strided":
+        big = np.full((2 * a.shape[0], a.shape[1]), -77.0)
+        big[::2] = a
+        return big[::2], 1.0
+    if form == "noncontig_cols":
+        big = np.full((a.shape[0], 2 * a.shape[1] + 1), -77.0)
+        big[:, 1::2] = a
+        return big[:, 1::2], 1.0
+    if form == "readonly":
+        b = a.copy()
+        b.setflags(write=False)
+        return b, 1.0
+    return a.copy(), 1.0
+
+
+def work_forms(task):
+    """the same series handed over as another dtype / byte order / layout / view: one label per input row all the same"""
+    from vlib import lib
+    lib.load("nojit")
+    import fast_ticc
+    from vlib.seams import TRACER
+    (N, W, joint) = task
+    acc = Acc()
+    K = 2
+    lengths = (W + 7, W + 5) if joint else (W + 9,)
+    base = [series_for(T, N, j) for j, T in enumerate(lengths)]
+    Tp = sum(T - W + 1 for T in lengths)
+    TRACER.install()
+    TRACER.deep = False
+    for form in FORMS:
+        if stopped():
+            break
+        data = [in_form(x, form)[0] for x in base]
+        keep = [np.array(x, dtype=np.float64) for x in data]
+        TRACER.begin(init_labels=[0 if i < Tp // 2 else 1 for i in range(Tp)], pool_factory="virtual")
+        acc.n += 1
+        acc.nontrivial += 1
+        case = {"N": N, "W": W, "K": K, "lengths": list(lengths), "joint": joint, "path": "forms", "form": form}
+        kw = dict(window_size=W, num_clusters=K, sparsity_weight=0.11, label_switching_cost=1.0, iteration_limit=2,
+                  min_cluster_size=1, biased_covariance=True)
+        try:
+            res = fast_ticc.ticc_joint_labels(list(data), **kw) if joint else fast_ticc.ticc_labels(data[0], **kw)
+        except Exception as e:
+            acc.count("runs_raised", form + ":" + type(e).__name__)
+            continue
+        msg = None
+        if joint:
+            pl = res.point_labels
+            if not isinstance(pl, (list, tuple)) or len(pl) != len(lengths):
+                msg = f"{len(pl) if hasattr(pl, '__len__') else '?'} label lists for {len(lengths)} series"
+            else:
+                for j, T in enumerate(lengths):
+                    msg = msg or check_labels(pl[j], T, W, K)
+        else:
+            msg = check_labels(res.point_labels, lengths[0], W, K)
+        if msg is None and any(np.shape(a) != (N * W, N * W) for a in res.markov_random_fields):
+            msg = f"MRF shapes {[np.shape(a) for a in res.markov_random_fields]}, expected {(N * W, N * W)}"
+        if msg is None and TRACER.init_mismatch:
+            msg = f"the main loop was handed {TRACER.init_mismatch[1]} stacked windows instead of {Tp}"
+        if msg is None and any(not np.array_equal(np.array(x, dtype=np.float64), k) for x, k in zip(data, keep)):
+            msg = "the series was modified"
+        if msg:
+            acc.fail(case, f"series handed over as {form} ({'joint' if joint else 'single'}, N={N}, W={W}): {msg}")
+    acc.sample({"path": "forms", "N": N, "W": W, "joint": joint, "forms": list(FORMS)})
+    return acc.result()
+
+
 def length_tuples(W, nmax):
     alpha = (W + 4, W + 5, W + 8)
     out = []
@@ -237,6 +318,8 @@ def run(ctx):
         ctx.take(r)
     for r in ctx.pmap(work_special, [None]):
         ctx.take(r)
+    for r in ctx.pmap(work_forms, [(N, W, joint) for (N, W) in ((1, 1), (1, 3), (2, 1), (2, 2), (3, 2)) for joint in (False, True)]):
+        ctx.take(r)
     dtasks = [(1, 2, 2, (12,), False), (2, 3, 2, (14,), False), (1, 4, 3, (16,), False),
               (1, 2, 2, (9, 12), True), (2, 3, 2, (10, 8, 13), True), (1, 5, 2, (11, 14), True)]
     for r in ctx.pmap(work_default, dtasks, jobs=6):
@@ -249,13 +332,16 @@ def run(ctx):
         "plus series with fewer rows than sensors, the same array object labelled six times with different windows, and 6 runs on the untouched default path (real GMM, real pool). Oracle on the result: T labels, margins "
         "exactly floor((W-1)/2) / (W-1)-floor((W-1)/2) of -1, all others integers in [0,K), K MRFs of NW x NW, K "
         "and W echoed, joint: one list per series in input order, each equal to its slice of the joint labelling. "
+        "Plus array forms of the same series " + str(list(FORMS)) + " for 5 (N,W) x {single, 2 series}. "
         "Runs that raise are counted, not judged. non-trivial = W>1 and (single or >= 2 series)")
 
 
 def replay(ctx, case):
     from vlib import lib
     lib.load("nojit")
-    if str(case.get("path", "")).startswith("special"):
+    if case.get("path") == "forms":
+        ctx.take(work_forms((case["N"], case["W"], case["joint"])))
+    elif str(case.get("path", "")).startswith("special"):
         ctx.take(work_special(None))
     elif case.get("path") == "default":
         ctx.take(work_default((case["N"], case["W"], case["K"], tuple(case["lengths"]), case["joint"])))
